@@ -4,7 +4,7 @@ use super::*;
 use crate::case::{mk_violation, Case};
 use crate::coord::{self, Batch, Stats};
 use crate::gen;
-use crate::ops::{CreateKind, Facade, Op, OpSpec};
+use crate::ops::{CreateKind, Facade, Op, OpSpec, Outcome};
 use crate::rng::{self, Rng};
 use crate::sup::{Dec, Plan, RunOut, Seeded};
 use crate::world::WorldSpec;
@@ -28,11 +28,73 @@ pub fn plan(tier: &str, seed: u64) -> Vec<Batch> {
         for i in 0..quiet {
             v.push(Batch { check: "C03".into(), phase: "quiescent".into(), uni: uni.clone(), seed, lo: i * PER_BATCH, hi: (i + 1) * PER_BATCH, fresh: false, tier: tier.into(), extra: Value::Null });
         }
+        // a caller thread with a private descriptor table (unshare(CLONE_FILES)) while the rest of the
+        // process holds directories outside the root at the numbers the library's descriptors will get
+        v.push(Batch { check: "C03".into(), phase: "private-table".into(), uni: uni.clone(), seed, lo: 0, hi: private_cases().len() as u64, fresh: false, tier: tier.into(), extra: Value::Null });
         for i in 0..swarm {
             v.push(Batch { check: "C03".into(), phase: "swarm".into(), uni: uni.clone(), seed, lo: i * PER_BATCH, hi: (i + 1) * PER_BATCH, fresh: false, tier: tier.into(), extra: Value::Null });
         }
     }
     v
+}
+
+pub fn private_cases() -> Vec<(&'static str, bool)> {
+    let mut v = Vec::new();
+    for p in ["pt-new/sub", "a/b/pt-x/y", "a/lnk/pt-z", "pt-one", "a/b/c/d/../pt-w/q"] {
+        for c in [false, true] {
+            v.push((p, c));
+        }
+    }
+    v
+}
+
+fn run_private(u: &mut Universe, b: &Batch, idx: u64, st: &mut Stats) -> bool {
+    let case = if b.phase == "replay" {
+        match Case::from_json(&b.extra["case"]) {
+            Some(c) => c,
+            None => return false,
+        }
+    } else {
+        let (path, cfac) = private_cases()[idx as usize % private_cases().len()];
+        let mut case = Case::new("C03", "private-table", b.uni.clone());
+        case.world = Some(attack::race_world());
+        let mut o = OpSpec::new(Op::MkdirAllPrivateTable { path: path.into(), mode: 0o755 });
+        if cfac {
+            o = o.c();
+        }
+        case.jobs = vec![vec![o]];
+        case
+    };
+    let out = run_case(u, &case, &mut crate::sup::NoHooks, false);
+    u.poisoned = true; // the caller keeps its private table: this universe runs nothing else
+    if let Some(e) = &out.harness_error {
+        st.harness_errors.push(format!("private-table {idx}: {e}"));
+        return false;
+    }
+    st.evaluations += 1;
+    st.merge_runout(&out);
+    st.nontrivial.insert(case.hash());
+    if let Some(rec) = out.records.first() {
+        st.count(&format!("private.outcome.{}", rec.outcome.class().split(':').take(3).collect::<Vec<_>>().join(":")), 1);
+        if std::env::var_os("DBG_C03").is_some() {
+            eprintln!("DBG {} {:?} => {:?}", case.uni.tag(), case.jobs[0][0].to_json().to_string(), rec.outcome);
+        }
+        let found = match &rec.outcome {
+            Outcome::Harness(1) => Some(("returned-never-inside:private-descriptor-table", "mkdir_all called from a thread with a private descriptor table returned a handle outside the root (the thread-group leader holds a directory outside the root at the same descriptor numbers)".to_string())),
+            Outcome::Harness(2) => Some(("outside-changed:private-descriptor-table", "mkdir_all called from a thread with a private descriptor table created its directories in a directory outside the root that the thread-group leader holds at the same descriptor number".to_string())),
+            Outcome::Harness(-2) => {
+                st.harness_errors.push(format!("private-table {idx}: set-up failed"));
+                return false;
+            }
+            Outcome::Panic(m) => Some(("panic", m.clone())),
+            _ => None,
+        };
+        if let Some((clause, detail)) = found {
+            let v = mk_violation(&case, &out, "C03", clause, "mkdir_all", detail);
+            st.violation(&v);
+        }
+    }
+    true
 }
 
 /// A mutating operation with adversarial path spellings.
@@ -248,6 +310,17 @@ pub fn run(u: &mut Universe, b: &Batch, st: &mut Stats) {
     for idx in b.lo..b.hi {
         coord::progress(idx);
         match b.phase.as_str() {
+            "private-table" => {
+                // (the caller keeps its private table; the remaining cases of this batch run in the
+                // same universe, nothing else does)
+                if !run_private(u, b, idx, st) {
+                    return;
+                }
+                continue;
+            }
+            "replay" if b.extra["case"]["phase"].as_str() == Some("private-table") => {
+                run_private(u, b, idx, st);
+            }
             "replay" => {
                 let case = match Case::from_json(&b.extra["case"]) {
                     Some(c) => c,
